@@ -135,8 +135,11 @@ class SocketTransportSink(MuxSocketTransportSink):
 
   def _Shutdown(self, reason, fault=True):
     super(SocketTransportSink, self)._Shutdown(reason, fault)
-    if self._ping_ar:
-      self._ping_ar.set_exception(reason)
+    # Retire the outstanding ping: an Rping that was read before the connection
+    # failed, but is dispatched after it, must not complete it successfully.
+    ar, self._ping_ar = self._ping_ar, None
+    if ar:
+      ar.set_exception(reason)
 
 
 SocketTransportSink.Builder = SocketTransportSinkProvider(SocketTransportSink)
